@@ -44,7 +44,12 @@ class Protocol(Component):
         if event.name.endswith('_success'):
             source_event = args[0]
 
-            if getattr(args[0], 'node_call_id', False) is not False:
+            # every Protocol of the process sees this event: only the
+            # connection the call came from answers it
+            if (
+                getattr(args[0], 'node_call_id', False) is not False
+                and getattr(args[0], 'node_sock', None) is self.__sock
+            ):
                 self.send_result(source_event.node_call_id, source_event.value)
 
     def send(self, event):
